@@ -12,6 +12,7 @@ package decode
 //@   safety[C02]
 //@   ensures len(b) == 0 ==> result0 == 0 && result1 == 0
 //@   ensures len(b) > 0 ==> result0 == b[len(b)-1] && result1 == 1
+//@   noalloc[C17]
 
 //@ func decodeSize
 //@   safety[C02]
@@ -19,6 +20,7 @@ package decode
 //@   ensures[C02] 0 - 1 <= result1 && result1 <= len(b) && result1 <= 5
 //@   ensures[!C02] n < 0 ==> result1 == 0 - 1 && result0 == 0
 //@   ensures[!C02] n >= 1 ==> result1 == n && result0 == varintVal(mem(b), hi(b), n)
+//@   noalloc[C17]
 
 //@ func DecodeType
 //@   safety[C02]
@@ -26,6 +28,7 @@ package decode
 //@   ensures result2 == nil
 //@   ensures len(b) == 0 ==> result0 == 0 && result1 == 0
 //@   ensures len(b) > 0 ==> result0 == b[len(b)-1] && result1 == 1
+//@   noalloc[C17]
 
 // ---- size probe
 
@@ -38,6 +41,7 @@ package decode
 //@   ensures[C13] len(b) > 0 && vs > 0 ==> result2 == nil
 //@   ensures[C13] result2 != nil ==> result1 == 0
 //@   canary[C13] result2 == nil ==> result1 <= 9
+//@   noalloc[C17]
 
 // ---- integers
 
@@ -57,6 +61,7 @@ package decode
 //@   ensures[C10] len(b) > 0 && m < 0 ==> result2 != nil
 //@   ensures[C10] len(b) > 0 && t != 10 && t != 11 && t != 12 ==> result2 != nil
 //@   canary[C10] result2 == nil ==> result1 <= 3
+//@   noalloc[C17]
 
 //@ func DecodeInt32
 //@   safety[C02]
@@ -74,6 +79,7 @@ package decode
 //@   ensures[C10] len(b) > 0 && m < 0 ==> result2 != nil
 //@   ensures[C10] len(b) > 0 && t != 10 && t != 11 && t != 12 ==> result2 != nil
 //@   canary[C10] result2 == nil ==> result1 <= 3
+//@   noalloc[C17]
 
 //@ func DecodeInt64
 //@   safety[C02]
@@ -90,6 +96,7 @@ package decode
 //@   ensures[C10] len(b) > 0 && m < 0 ==> result2 != nil
 //@   ensures[C10] len(b) > 0 && t != 10 && t != 11 && t != 12 ==> result2 != nil
 //@   canary[C10] result2 == nil ==> result1 <= 5
+//@   noalloc[C17]
 
 //@ func DecodeUint16
 //@   safety[C02]
@@ -107,6 +114,7 @@ package decode
 //@   ensures[C10] len(b) > 0 && m < 0 ==> result2 != nil
 //@   ensures[C10] len(b) > 0 && t != 20 && t != 21 && t != 22 ==> result2 != nil
 //@   canary[C10] result2 == nil ==> result1 <= 3
+//@   noalloc[C17]
 
 //@ func DecodeUint32
 //@   safety[C02]
@@ -124,6 +132,7 @@ package decode
 //@   ensures[C10] len(b) > 0 && m < 0 ==> result2 != nil
 //@   ensures[C10] len(b) > 0 && t != 20 && t != 21 && t != 22 ==> result2 != nil
 //@   canary[C10] result2 == nil ==> result1 <= 3
+//@   noalloc[C17]
 
 //@ func DecodeUint64
 //@   safety[C02]
@@ -140,6 +149,7 @@ package decode
 //@   ensures[C10] len(b) > 0 && m < 0 ==> result2 != nil
 //@   ensures[C10] len(b) > 0 && t != 20 && t != 21 && t != 22 ==> result2 != nil
 //@   canary[C10] result2 == nil ==> result1 <= 5
+//@   noalloc[C17]
 
 // ---- byte, bool
 
@@ -152,6 +162,7 @@ package decode
 //@   ensures[C10] len(b) >= 2 && b[len(b)-1] == 3 ==> result2 == nil && result0 == b[len(b)-2] && result1 == 2
 //@   ensures[C10] len(b) > 0 && (b[len(b)-1] != 3 || len(b) < 2) ==> result2 != nil
 //@   canary[C10] result2 == nil ==> result0 == 0
+//@   noalloc[C17]
 
 //@ func DecodeBool
 //@   safety[C02]
@@ -160,6 +171,7 @@ package decode
 //@   ensures[C13] len(b) > 0 && (b[len(b)-1] == 1 || b[len(b)-1] == 2) && result2 == nil ==> result1 == valueSize(mem(b), lo(b), hi(b))
 //@   ensures[C10] len(b) > 0 && b[len(b)-1] == 1 ==> result2 == nil && result0 == true && result1 == 1
 //@   ensures[C10] len(b) > 0 && b[len(b)-1] == 2 ==> result2 == nil && result0 == false && result1 == 1
+//@   noalloc[C17]
 
 // ---- bytes, string, struct
 
@@ -167,11 +179,13 @@ package decode
 //@   safety[C02]
 //@   ensures size <= len(b) ==> result1 == nil && result0 == b[len(b)-size:]
 //@   ensures size > len(b) ==> result1 != nil && len(result0) == 0
+//@   noalloc[C17]
 
 //@ func decodeStringData
 //@   safety[C02]
 //@   ensures size <= len(b) ==> result1 == nil && result0 == b[len(b)-size:]
 //@   ensures size > len(b) ==> result1 != nil && len(result0) == 0
+//@   noalloc[C17]
 
 //@ func DecodeBytes
 //@   safety[C02]
@@ -185,6 +199,7 @@ package decode
 //@   ensures[C10] len(b) > 0 && b[len(b)-1] == 50 && vs > 0 ==> err == nil && size == vs && result0 == b[len(b)-vs : len(b)-vs+ds]
 //@   ensures[C10] len(b) > 0 && (b[len(b)-1] != 50 || vs < 0) ==> err != nil
 //@   canary[C13] err == nil ==> size <= 300
+//@   noalloc[C17]
 
 //@ func DecodeString
 //@   safety[C02]
@@ -198,6 +213,7 @@ package decode
 //@   ensures[C10] len(b) > 0 && b[len(b)-1] == 60 && vs > 0 ==> err == nil && size == vs && result0 == b[len(b)-vs : len(b)-vs+ds]
 //@   ensures[C10] len(b) > 0 && (b[len(b)-1] != 60 || vs < 0) ==> err != nil
 //@   canary[C13] err == nil ==> size <= 300
+//@   noalloc[C17]
 
 //@ func DecodeStruct
 //@   safety[C02]
@@ -209,6 +225,7 @@ package decode
 //@   ensures[C13] len(b) > 0 && err == nil ==> size == vs && dataSize == varintVal(mem(b), hi(b) - 1, m) && size == dataSize + m + 1
 //@   ensures[C13] len(b) > 0 && b[len(b)-1] == 90 && vs > 0 ==> err == nil
 //@   canary[C13] err == nil ==> size <= 300
+//@   noalloc[C17]
 
 // ---- fixed-width binaries
 
@@ -220,6 +237,7 @@ package decode
 //@   ensures[C13] len(b) > 0 && err == nil ==> size == vs
 //@   ensures[C10] len(b) >= 9 && b[len(b)-1] == 30 ==> err == nil && size == 9 && (forall i :: 0 <= i && i < 8 ==> result0[i] == b[len(b)-9+i])
 //@   ensures[C10] len(b) > 0 && (b[len(b)-1] != 30 || len(b) < 9) ==> err != nil
+//@   noalloc[C17]
 
 //@ func DecodeBin128
 //@   safety[C02]
@@ -229,6 +247,7 @@ package decode
 //@   ensures[C13] len(b) > 0 && err == nil ==> size == vs
 //@   ensures[C10] len(b) >= 17 && b[len(b)-1] == 31 ==> err == nil && size == 17 && (forall i :: 0 <= i && i < 16 ==> result0[i] == b[len(b)-17+i])
 //@   ensures[C10] len(b) > 0 && (b[len(b)-1] != 31 || len(b) < 17) ==> err != nil
+//@   noalloc[C17]
 
 //@ func DecodeBin256
 //@   safety[C02]
@@ -238,6 +257,7 @@ package decode
 //@   ensures[C13] len(b) > 0 && err == nil ==> size == vs
 //@   ensures[C10] len(b) >= 33 && b[len(b)-1] == 32 ==> err == nil && size == 33 && (forall i :: 0 <= i && i < 32 ==> result0[i] == b[len(b)-33+i])
 //@   ensures[C10] len(b) > 0 && (b[len(b)-1] != 32 || len(b) < 33) ==> err != nil
+//@   noalloc[C17]
 
 // ---- floats (bounds and sizes here; the value clauses are under C10 in FP theory)
 
@@ -249,6 +269,7 @@ package decode
 //@   ensures[!C02] !(len(b) >= 5 && b[len(b)-1] == 40) && !(len(b) >= 9 && b[len(b)-1] == 41) ==> result1 == 0 - 1
 //@   ensures[C10] len(b) >= 5 && b[len(b)-1] == 40 ==> result0 == f64of32(f32OfBits(be32(mem(b), hi(b) - 5)))
 //@   ensures[C10] len(b) >= 9 && b[len(b)-1] == 41 ==> result0 == f64OfBits(be64(mem(b), hi(b) - 9))
+//@   noalloc[C17]
 
 //@ func DecodeFloat32
 //@   safety[C02]
@@ -263,6 +284,7 @@ package decode
 //@   ensures[C10] len(b) >= 9 && t == 41 && fitsF32(x64) ==> result2 == nil && result1 == 9 && result0 == f32of64(x64)
 //@   ensures[C10] len(b) >= 9 && t == 41 && !fitsF32(x64) ==> result2 != nil
 //@   ensures[C10] len(b) > 0 && !(len(b) >= 5 && t == 40) && !(len(b) >= 9 && t == 41) ==> result2 != nil
+//@   noalloc[C17]
 
 //@ func DecodeFloat64
 //@   safety[C02]
@@ -275,6 +297,7 @@ package decode
 //@   ensures[C10] len(b) >= 5 && t == 40 ==> result2 == nil && result1 == 5 && result0 == f64of32(f32OfBits(be32(mem(b), hi(b) - 5)))
 //@   ensures[C10] len(b) >= 9 && t == 41 ==> result2 == nil && result1 == 9 && result0 == f64OfBits(be64(mem(b), hi(b) - 9))
 //@   ensures[C10] len(b) > 0 && !(len(b) >= 5 && t == 40) && !(len(b) >= 9 && t == 41) ==> result2 != nil
+//@   noalloc[C17]
 
 // ---- list and message tables
 
@@ -283,12 +306,14 @@ package decode
 //@   let es = ite(big, 4, 2)
 //@   ensures size <= len(b) && size % es == 0 ==> err == nil && result0 == b[len(b)-size:]
 //@   ensures size > len(b) || size % es != 0 ==> err != nil && len(result0) == 0
+//@   noalloc[C17]
 
 //@ func decodeMessageTable
 //@   safety[C02]
 //@   let es = ite(big, 6, 3)
 //@   ensures size <= len(b) && size % es == 0 ==> err == nil && result0 == b[len(b)-size:]
 //@   ensures size > len(b) || size % es != 0 ==> err != nil && len(result0) == 0
+//@   noalloc[C17]
 
 //@ func DecodeListTable
 //@   safety[C02]
@@ -307,6 +332,7 @@ package decode
 //@        && size == 1 + m1 + m2 + ts + ds && result0.table == b[len(b)-1-m1-m2-ts : len(b)-1-m1-m2]
 //@   ensures[C01,C13] len(b) > 0 && (t == 70 || t == 71) && vs > 0 && ts % ite(t == 71, 4, 2) == 0 ==> err == nil
 //@   canary[C13] err == nil ==> size <= 300
+//@   noalloc[C17]
 
 //@ func DecodeMessageTable
 //@   safety[C02]
@@ -325,3 +351,4 @@ package decode
 //@        && size == 1 + m1 + m2 + ts + ds && result0.table == b[len(b)-1-m1-m2-ts : len(b)-1-m1-m2]
 //@   ensures[C01,C13] len(b) > 0 && (t == 80 || t == 81) && vs > 0 && ts % ite(t == 81, 6, 3) == 0 ==> err == nil
 //@   canary[C13] err == nil ==> size <= 300
+//@   noalloc[C17]
